@@ -629,6 +629,10 @@ def _thorough_bounded():
 
 THOROUGH_BOUNDED = _thorough_bounded()
 
+# tables the statement pins down by value (props/constants_common.py)
+from props.constants_common import ClosedConstants   # noqa: E402
+UNITS = list(UNITS) + [ClosedConstants('simfile-extensions')]
+
 
 # supplier units (see props/suppliers.py): the loader options are passed "through to every file they open" - by the loaders
 from props import suppliers as _S   # noqa: E402
